@@ -615,14 +615,22 @@ pub fn add_shape(t: &mut Tape, a: &Alphabet, p: &Profile, out: &mut Vec<MQuad>) 
         Some(MTerm::Iri(_)) | Some(MTerm::Bnode(_)) | None => g,
         _ => None,
     };
-    let bn = |i: usize| MTerm::Bnode(a.bnodes[i % a.bnodes.len()].clone());
+    // blank nodes of the shape: three times out of four labels of its own (a clean structure,
+    // disturbed only by what the shape itself adds), otherwise the few labels of the alphabet,
+    // which the random statements and the other shapes use too
+    let own = if t.chance(3, 4) { Some(out.len()) } else { None };
+    let bn = |i: usize| match own {
+        Some(k) => MTerm::Bnode(format!("s{k}n{i}")),
+        None => MTerm::Bnode(a.bnodes[i % a.bnodes.len()].clone()),
+    };
     let kind = t.below(11);
     match kind {
         0 => {
             // well-formed list of n items hanging off a subject
-            let n = t.range(1, 3).min(a.bnodes.len());
+            let n = if own.is_some() { t.range(1, 3) } else { t.range(1, 3).min(a.bnodes.len()) };
             let head = bn(0);
-            out.push(([a.iri(t), a.iri(t), head], g.clone()));
+            let parent_pred = if t.chance(1, 8) { rdf("type") } else { a.iri(t) };
+            out.push(([a.iri(t), parent_pred, head.clone()], g.clone()));
             for i in 0..n {
                 out.push(([bn(i), rdf("first"), a.object(t, &Profile::strict(), 2)], g.clone()));
                 let rest = if i + 1 < n { bn(i + 1) } else { rdf("nil") };
@@ -638,6 +646,33 @@ pub fn add_shape(t: &mut Tape, a: &Alphabet, p: &Profile, out: &mut Vec<MQuad>) 
                 if t.chance(1, 10) {
                     out.push(([bn(i), a.iri(t), a.literal(t)], g.clone()));
                 }
+            }
+            // what typically interferes with folding a list: more references to its nodes —
+            // through rdf:type, to a middle node (shared tail), from another graph — and a
+            // node that also names a graph
+            let k = t.below(n);
+            match t.below(12) {
+                0 => out.push(([a.iri(t), rdf("type"), head.clone()], g.clone())),
+                1 => out.push(([a.iri(t), a.iri(t), bn(k)], g.clone())),
+                2 => {
+                    let g2 = a.graphs[t.below(a.graphs.len())].clone();
+                    // (before or after the list itself: arrival order matters to streaming code)
+                    // (as object there it gains a second parent; as subject it only gains a
+                    // second graph)
+                    let q = if t.flag() {
+                        ([a.iri(t), a.iri(t), bn(k)], g2)
+                    } else {
+                        ([bn(k), a.iri(t), a.object(t, &Profile::strict(), 2)], g2)
+                    };
+                    if t.flag() {
+                        out.insert(0, q);
+                    } else {
+                        out.push(q);
+                    }
+                }
+                3 if p.graphs => out.push(([a.iri(t), a.iri(t), a.object(t, &Profile::strict(), 2)], Some(bn(k)))),
+                4 => out.push(([head.clone(), rdf("type"), a.iri(t)], g.clone())),
+                _ => {}
             }
             "list"
         }
@@ -694,8 +729,13 @@ pub fn add_shape(t: &mut Tape, a: &Alphabet, p: &Profile, out: &mut Vec<MQuad>) 
             "odd_list"
         }
         6 => {
-            // orphan list node: never an object
-            out.push(([bn(0), rdf("first"), a.literal(t)], g.clone()));
+            // orphan list node: never an object of anything else; its item may be itself
+            let item = match t.below(4) {
+                0 => bn(0),
+                1 => bn(1),
+                _ => a.literal(t),
+            };
+            out.push(([bn(0), rdf("first"), item], g.clone()));
             out.push(([bn(0), rdf("rest"), rdf("nil")], g.clone()));
             "orphan_list"
         }
@@ -857,6 +897,18 @@ pub fn gen_dataset(t: &mut Tape, p: &Profile) -> (Alphabet, Vec<MQuad>, Vec<&'st
     }
     if !p.star {
         out.retain(|q| !q.0.iter().any(|x| matches!(x, MTerm::Triple(_))));
+    }
+    // arrival order: a dataset is a set, but streaming consumers see a sequence; as generated
+    // (shapes contiguous, referrer before the structure it points to), reversed, or shuffled
+    match t.below(4) {
+        0 => {}
+        1 => out.reverse(),
+        _ => {
+            for i in (1..out.len()).rev() {
+                let j = t.below(i + 1);
+                out.swap(i, j);
+            }
+        }
     }
     (a, out, shapes)
 }
